@@ -152,6 +152,58 @@ class OffsetVeryLow2D(Gaussian2D):
         return super().log_likelihood(x) - 2.0e4
 
 
+class Rect2D(Model):
+    """Different bounds per parameter (narrow x0, wide x1) and likelihood mass at the narrow parameter's edge:
+    a flow proposes candidates beyond the bound, which the bounds check must reject.  log_prior delegates
+    the bounds test to Model.in_bounds (the documented pattern)."""
+
+    def __init__(self):
+        self.names = ["x0", "x1"]
+        self.bounds = {"x0": [-1.0, 1.0], "x1": [-8.0, 8.0]}
+
+    def log_prior(self, x):
+        with np.errstate(divide="ignore"):
+            lp = np.log(self.in_bounds(x).astype(float))
+        return lp - np.log(2.0 * 16.0)
+
+    def log_likelihood(self, x):
+        return -0.5 * (((x["x0"] - 0.8) / 0.5) ** 2 + (x["x1"] / 2.0) ** 2)
+
+    def to_unit_hypercube(self, x):
+        x = x.copy()
+        x["x0"] = (x["x0"] + 1.0) / 2.0
+        x["x1"] = (x["x1"] + 8.0) / 16.0
+        return x
+
+    def from_unit_hypercube(self, x):
+        x = x.copy()
+        x["x0"] = 2.0 * x["x0"] - 1.0
+        x["x1"] = 16.0 * x["x1"] - 8.0
+        return x
+
+
+class Disc2D(_Box):
+    """Uniform prior on a DISC inside the box: log_prior = -inf in the corners although the point is inside
+    the bounds (candidates pass the hypercube / bounds check and are rejected by the prior)."""
+
+    ndim = 2
+    R2 = 16.0
+
+    def log_prior(self, x):
+        with np.errstate(divide="ignore"):
+            lp = np.log((self.in_bounds(x) & (self._r2(x) < self.R2)).astype(float))
+        return lp - np.log(np.pi * self.R2)
+
+    def log_prior_unit_hypercube(self, x):
+        u = self.unstructured_view(x)
+        with np.errstate(divide="ignore"):
+            inside = np.log((~np.any((u < 0) | (u >= 1), axis=-1)).astype(float))
+        return inside + self.log_prior(self.from_unit_hypercube(x)) + self.ndim * np.log(self.hi - self.lo)
+
+    def log_likelihood(self, x):
+        return -0.5 * ((x["x0"] - 2.5) ** 2 + x["x1"] ** 2)
+
+
 class Hole2D(_Box):
     """The prior vanishes on a disc inside the box."""
 
@@ -246,6 +298,8 @@ MODELS = {
     "offlow2": OffsetLow2D,
     "offvlow2": OffsetVeryLow2D,
     "flat2": FlatTop2D,
+    "rect2": Rect2D,
+    "disc2": Disc2D,
     "offhigh2": OffsetHigh2D,
     "gauss3": Gaussian3D,
     "gauss4": Gaussian4D,
